@@ -46,6 +46,9 @@ type ftStep struct {
 	Written int `json:"written"` // whole client messages written so far
 	Visible int `json:"visible"` // whole client messages flushed so far
 	Partial int `json:"partial"` // bytes written beyond the last whole message
+	N       int  `json:"n"`       // what the Write call returned
+	Err     bool `json:"err"`
+	K       int  `json:"k"` // len(p) of the call
 }
 
 type ftFinal struct {
@@ -226,11 +229,11 @@ func init() {
 			hw.WriteHeader(200)
 			rest := stream
 			for _, k := range s.Writes {
-				_, _ = hw.Write(rest[:k]) // (a handler that does not look at the result: every call is made)
+				n, werr := hw.Write(rest[:k]) // (a handler that goes on whatever the result: every call is made)
 				rest = rest[k:]
 				nw, part := ftCount(w.body)
 				nv, _ := ftCount(w.body[:w.flushed])
-				obs.Steps = append(obs.Steps, ftStep{Written: nw, Visible: nv, Partial: part})
+				obs.Steps = append(obs.Steps, ftStep{Written: nw, Visible: nv, Partial: part, N: n, Err: werr != nil, K: k})
 			}
 			if c.Backend == "grpc" && !cut {
 				hw.Header().Set("Grpc-Status", "0")
